@@ -134,7 +134,7 @@ Args:
 
         if radius is None: radius = 0.05 # nonzdelt=0.05 from scipy-0.9
         val = x0*(1+radius)
-        val[val==0] = (radius**2) * 0.1 # zdelt=0.00025 update from scipy-0.9
+        val[val==0] = radius * (radius/10) # zdelt=0.00025 update from scipy-0.9
         if not self._useStrictRange:
             self.population[0] = x0
             return val
